@@ -13,6 +13,11 @@ from .tlc import run_tlc, validate_observations
 
 def run(ctx):
     rnd = random.Random(ctx.seed)
+    # the reader at generator grain (spec/Readers.tla): several reader objects (own tables / the caller's pair), several
+    # listings alive on one reader, read in any order; design model-checked by Readers_MC, every next() by Readers_Val
+    from . import readers
+    readers.model_check(ctx, 'idxOnObject')
+    readers.run_sessions(ctx, random.Random(ctx.seed + 91), 300 if ctx.quick else 6000, [3, 3, 2], 'rd', force_logs=True)
     ctx.expect_ok(run_tlc('Container_MC', MC_CFG % ((2, 1) if ctx.quick else (2, 2)), ctx.workdir, name='container',
                           timeout=7200))
     n = 500 if ctx.quick else 10000
